@@ -152,6 +152,115 @@ pub unsafe extern "C" fn clock_gettime(clk: libc::clockid_t, ts: *mut libc::time
     r
 }
 
+// Other ways to read the wall clock follow the same skew.
+
+#[no_mangle]
+pub unsafe extern "C" fn time(tloc: *mut libc::time_t) -> libc::time_t {
+    let mut ts = libc::timespec { tv_sec: 0, tv_nsec: 0 };
+    clock_gettime(libc::CLOCK_REALTIME, &mut ts);
+    if !tloc.is_null() {
+        *tloc = ts.tv_sec;
+    }
+    ts.tv_sec
+}
+
+#[no_mangle]
+pub unsafe extern "C" fn gettimeofday(tv: *mut libc::timeval, _tz: *mut libc::c_void) -> libc::c_int {
+    if !tv.is_null() {
+        let mut ts = libc::timespec { tv_sec: 0, tv_nsec: 0 };
+        clock_gettime(libc::CLOCK_REALTIME, &mut ts);
+        (*tv).tv_sec = ts.tv_sec;
+        (*tv).tv_usec = (ts.tv_nsec / 1000) as libc::suseconds_t;
+    }
+    0
+}
+
+// Who the process is: host name, user id, parent. A simulated process can be given an identity
+// of its own (0 = the real one); pids differ between processes anyway.
+
+static SIM_IDENTITY: AtomicU64 = AtomicU64::new(0);
+
+pub fn set_process_identity(identity: u64) {
+    SIM_IDENTITY.store(identity, Ordering::Relaxed);
+}
+
+fn sim_host_name() -> Option<String> {
+    match SIM_IDENTITY.load(Ordering::Relaxed) {
+        0 => None,
+        id => Some(format!("builder-{:x}.example.net", id & 0xffff_ffff)),
+    }
+}
+
+#[no_mangle]
+pub unsafe extern "C" fn gethostname(name: *mut libc::c_char, len: libc::size_t) -> libc::c_int {
+    let mut u: libc::utsname = std::mem::zeroed();
+    if uname(&mut u) != 0 || name.is_null() {
+        return -1;
+    }
+    let n = libc::strlen(u.nodename.as_ptr());
+    if n + 1 > len {
+        *libc::__errno_location() = libc::ENAMETOOLONG;
+        return -1;
+    }
+    std::ptr::copy_nonoverlapping(u.nodename.as_ptr(), name, n + 1);
+    0
+}
+
+#[no_mangle]
+pub unsafe extern "C" fn uname(buf: *mut libc::utsname) -> libc::c_int {
+    let r = libc::syscall(libc::SYS_uname, buf) as libc::c_int;
+    if r == 0 && !buf.is_null() {
+        if let Some(host) = sim_host_name() {
+            let bytes = host.as_bytes();
+            let n = bytes.len().min((*buf).nodename.len() - 1);
+            for (i, b) in bytes[..n].iter().enumerate() {
+                (*buf).nodename[i] = *b as libc::c_char;
+            }
+            (*buf).nodename[n] = 0;
+        }
+    }
+    r
+}
+
+/// Whether the standard streams look like a terminal (half of the simulated identities say yes).
+#[no_mangle]
+pub unsafe extern "C" fn isatty(fd: libc::c_int) -> libc::c_int {
+    let id = SIM_IDENTITY.load(Ordering::Relaxed);
+    if id != 0 && (0..=2).contains(&fd) && (id >> 40) & 1 == 1 {
+        return 1;
+    }
+    let mut termios: libc::termios = std::mem::zeroed();
+    if libc::syscall(libc::SYS_ioctl, fd, libc::TCGETS, &mut termios) == 0 {
+        1
+    } else {
+        0
+    }
+}
+
+#[no_mangle]
+pub unsafe extern "C" fn getuid() -> libc::uid_t {
+    match SIM_IDENTITY.load(Ordering::Relaxed) {
+        0 => libc::syscall(libc::SYS_getuid) as libc::uid_t,
+        id => 1000 + (id % 50_000) as libc::uid_t,
+    }
+}
+
+#[no_mangle]
+pub unsafe extern "C" fn geteuid() -> libc::uid_t {
+    match SIM_IDENTITY.load(Ordering::Relaxed) {
+        0 => libc::syscall(libc::SYS_geteuid) as libc::uid_t,
+        id => 1000 + (id % 50_000) as libc::uid_t,
+    }
+}
+
+#[no_mangle]
+pub unsafe extern "C" fn getppid() -> libc::pid_t {
+    match SIM_IDENTITY.load(Ordering::Relaxed) {
+        0 => libc::syscall(libc::SYS_getppid) as libc::pid_t,
+        id => 2 + ((id >> 8) % 30_000) as libc::pid_t,
+    }
+}
+
 #[no_mangle]
 pub unsafe extern "C" fn nanosleep(req: *const libc::timespec, rem: *mut libc::timespec) -> libc::c_int {
     if !req.is_null() {
